@@ -783,6 +783,51 @@ func (g *FnGen) evalCall(env *Env, x *ECall) SVal {
 		name := q(fmt.Sprintf("pure:%s:%d", key, idx))
 		w.decl(name+strings.Join(ss, ","), fmt.Sprintf("(declare-fun %s (%s) %s)", name, strings.Join(ss, " "), srt))
 		return SVal{Term{fmt.Sprintf("(%s %s)", name, strings.Join(as, " ")), srt}, rt}
+	case "capture":
+		// capture("pkg.Fn$1", i, closure): the i-th variable captured by a closure value made from that function literal
+		// (a closure value determines its bindings; for a by-reference capture the variable's current value)
+		key := x.Args[0].(*EStr).V
+		idx := -1
+		clo := arg(2)
+		f := w.findFunc(key)
+		if f != nil {
+			switch a := x.Args[1].(type) {
+			case *EInt:
+				fmt.Sscanf(a.V, "%d", &idx)
+			case *EStr: // by name
+				for i, fv := range f.FreeVars {
+					if fv.Name() == a.V {
+						idx = i
+					}
+				}
+			}
+		}
+		if f == nil || idx < 0 || idx >= len(f.FreeVars) {
+			env.fail("capture: no captured variable %d in %s", idx, key)
+		}
+		k := w.funcKey(f)
+		var sorts, bvs, names []string
+		for i, fv := range f.FreeVars {
+			srt := w.sortOf(fv.Type())
+			sorts = append(sorts, srt)
+			bvs = append(bvs, fmt.Sprintf("(cap%d %s)", i, srt))
+			names = append(names, fmt.Sprintf("cap%d", i))
+		}
+		cname := q("clo:" + k)
+		w.decl("clo:"+k, fmt.Sprintf("(declare-fun %s (%s) Int)", cname, strings.Join(sorts, " ")))
+		iname := q(fmt.Sprintf("cloinv:%s:%d", k, idx))
+		app := fmt.Sprintf("(%s %s)", cname, strings.Join(names, " "))
+		w.decl("cloinv:"+k+fmt.Sprint(idx), fmt.Sprintf("(declare-fun %s (Int) %s)\n(assert (forall (%s) (! (= (%s %s) cap%d) :pattern (%s))))",
+			iname, sorts[idx], strings.Join(bvs, " "), iname, app, idx, app))
+		fvt := f.FreeVars[idx].Type()
+		v := Term{fmt.Sprintf("(%s %s)", iname, clo.S), sorts[idx]}
+		if pt, ok := fvt.(*types.Pointer); ok {
+			if _, isStruct := types.Unalias(pt.Elem()).Underlying().(*types.Struct); !isStruct {
+				ck, srt := w.cellKey(pt.Elem())
+				return SVal{Term{fmt.Sprintf("(select %s %s)", g.hget(env.st, ck).S, v.S), srt}, pt.Elem()}
+			}
+		}
+		return SVal{v, fvt}
 	case "callresult", "called":
 		key := x.Args[0].(*EStr).V
 		k := 1
